@@ -133,8 +133,8 @@ func (p *Prog) RootVars(r *Ref) map[string]string {
 		vars["P"] = fmt.Sprintf(">r%d", r.ID)
 	}
 	if r.X != "" {
-		if t.Run == WhenChanged && t.XVia == "env" && strings.Contains(r.X, ",") {
-			xy := strings.SplitN(r.X, ",", 2)
+		if t.Run == WhenChanged && t.XVia == "env" {
+			xy := strings.SplitN(r.X+",", ",", 3)
 			vars["X"], vars["Y"] = xy[0], xy[1]
 		} else {
 			vars["X"] = r.X
@@ -177,9 +177,9 @@ func (p *Prog) refVars(from *Task, r *Ref, item string) string {
 		if item != "" {
 			x = strings.ReplaceAll(x, "%ITEM%", item)
 		}
-		if t.Run == WhenChanged && t.XVia == "env" && strings.Contains(x, ",") {
+		if t.Run == WhenChanged && t.XVia == "env" {
 			// two variables that reach the callee only through its env: the identity is the pair
-			xy := strings.SplitN(x, ",", 2)
+			xy := strings.SplitN(x+",", ",", 3)
 			kv = append(kv, "X: "+yq(xy[0]), "Y: "+yq(xy[1]))
 		} else {
 			kv = append(kv, "X: "+yq(x))
@@ -329,8 +329,8 @@ func probeLine(kind, cid, item string, t *Task) string {
 	}
 	pv := "{{.P}}"
 	if t.Run == WhenChanged && t.XVia == "env" {
-		pv = "{{.P}}[$XE$YE]"
-		x = "$XE$YE"
+		pv = "{{.P}}[$XE,$YE]"
+		x = "$XE,$YE"
 	}
 	return fmt.Sprintf(`printf '%s %s %%s x=%%s\n' "%s" "%s"`, kind, cid, pv, x)
 }
@@ -462,7 +462,7 @@ func (p *Prog) renderTask(b *strings.Builder, t *Task) {
 		}
 	}
 	if t.Run == WhenChanged && t.XVia == "env" {
-		b.WriteString("    env:\n      XE: '{{.X}}'\n      YE: '{{if .Y}},{{.Y}}{{end}}'\n")
+		b.WriteString("    env:\n      XE: '{{.X}}'\n      YE: '{{.Y}}'\n")
 	}
 	if len(t.Deps) > 0 {
 		b.WriteString("    deps:\n")
